@@ -296,6 +296,9 @@ func Both(c chan int, d <-chan string, b chan bool) (int, bool, string) {
 	for i := 0; i < 1 && <-b; i++ {
 	}
 	x := <-c
+	w := <-mk()
+	mk() <- g(w)
+	<-mk()
 	select {
 	case y := <-c:
 		return y, false, ""
@@ -308,6 +311,12 @@ func Both(c chan int, d <-chan string, b chan bool) (int, bool, string) {
 }
 
 func f(i int) int { return i }
+
+var shared = make(chan int, 8)
+
+func mk() chan int { shared <- 5; return shared }
+
+func g(i int) int { return i + 1 }
 
 // Shared reports whether the loop variable is one variable for the whole loop (the go 1.11 semantics of this module).
 func Shared() bool {
@@ -345,7 +354,7 @@ func TestWait(t *testing.T) {
 		t.Fatal(err)
 	}
 	a, _ := os.ReadFile(filepath.Join(dir, "a.go"))
-	for _, want := range []string{":= <-r.done; zzsimrt.EndBlocking(); return zzv", "ok := <-c; zzsimrt.EndBlocking(); if v, ok := zzv", "} else if <-b {", "i < 1 && <-b;", "case y := <-c:", "switch zzv", "f(zzv"} {
+	for _, want := range []string{":= r.done; zzsimrt.BeginBlocking(); zzv", "; zzsimrt.EndBlocking(); return zzv", "ok := <-zzc", "if v, ok := zzv", "} else if <-b {", "i < 1 && <-b;", "case y := <-c:", "switch zzv", "f(zzv", "zzsimrt.BeginBlocking(); zzc", "_ = zzv", "w := zzv", ":= mk(), g(w); zzsimrt.BeginBlocking(); zzc"} {
 		if !strings.Contains(string(a), want) {
 			t.Fatalf("missing %q in\n%s", want, a)
 		}
